@@ -18,7 +18,7 @@ func init() {
 			"C12.2 Check=nil implies encoded value ≤ 1000 bytes and, for mutable items, salt ≤ 64 bytes ∧ Verify(k, salt, seq, encoded v, sig) on the same item; the failing edges return 205 / 207 / 206; signer and verifier build the same buffer; " +
 			"C12.3 targets hash k‖salt (mutable) or the encoded value (immutable), same predicate on both sides; C12.4 the get handler serves v, k, sig, seq of the one stored item and the put handler builds the item field-for-field from the arguments and relays the store's KRPC error; " +
 			"C12.5 the client hands its caller only values dominated by hash-match or key-match ∧ Verify, and writes state shared between replies only under those facts; C12.6 Wrapper.Put returns the validator's (or the backend's) own error value on every path and the put handler sends the asserted krpc.Error, so 205/206/207 (and 301/302) reach the sender.",
-		NotDecided: "ed25519 / SHA-1 correctness; 'highest seq wins' selection among accepted replies; bencode re-encoding fidelity of v.",
+		NotDecided: "ed25519 / SHA-1 correctness; 'highest seq wins' as a value-level statement over reply orders (decided structurally: accumulator start and no early exit after a mutable value); bencode re-encoding fidelity of v.",
 		Rules: []*Rule{
 			{ID: "C12.1", Doc: "validation dominates storage", Floor: 4, Run: c12r1},
 			{ID: "C12.2", Doc: "what Check=nil means", Floor: 6, Run: c12r2},
@@ -544,6 +544,50 @@ func c12r5(w *World, rr *RuleRun) {
 		})
 		if nCmp == 0 {
 			rr.ObligeTrivial(shortFuncName(getF), "no sequence-number accumulator in Get", "-", true, "")
+		}
+		// ... and a mutable value never ends the collection: "the highest among the valid values"
+		// is only known when the lookup has nothing left to ask (or the caller gives up), so after a
+		// mutable value every path leads back to the receive
+		mutF := w.P.Field("exts/getput", "GetResult", "Mutable")
+		var sel *ssa.Select
+		eachInstr([]*ssa.Function{getF}, func(_ *ssa.Function, ins ssa.Instruction) {
+			if x, ok := ins.(*ssa.Select); ok && x.Blocking {
+				sel = x
+			}
+		})
+		nMut := 0
+		if sel != nil {
+			eachInstr([]*ssa.Function{getF}, func(_ *ssa.Function, ins ssa.Instruction) {
+				ifi, ok := ins.(*ssa.If)
+				if !ok {
+					return
+				}
+				cond, neg := ifi.Cond, false
+				if u, isU := cond.(*ssa.UnOp); isU && u.Op == token.NOT {
+					cond, neg = u.X, true
+				}
+				if !isFieldTerm(w.TS.Of(cond), mutF) {
+					return
+				}
+				succ := ifi.Block().Succs[0]
+				if neg {
+					succ = ifi.Block().Succs[1]
+				}
+				nMut++
+				escapes := false
+				for _, b := range getF.Blocks {
+					if len(b.Instrs) == 0 {
+						continue
+					}
+					if ret, isRet := b.Instrs[len(b.Instrs)-1].(*ssa.Return); isRet && reachAvoidingAll(succ, 0, ret, []ssa.Instruction{sel}) {
+						escapes = true
+					}
+				}
+				rr.At(w, ins, "after a mutable value the collection goes on: every path leads back to the receive", !escapes, "Get can return straight after a mutable value, before the lookup has run out of nodes to ask: a later, higher sequence number is never seen")
+			})
+		}
+		if nMut == 0 {
+			rr.Oblige(shortFuncName(getF), "after a mutable value the collection goes on: every path leads back to the receive", w.P.Pos(getF.Pos()), false, "no Mutable test / blocking select found in Get")
 		}
 	}
 }
